@@ -7,13 +7,16 @@ import (
 	"strings"
 
 	"github.com/ethereum/go-ethereum/common"
+	"github.com/ethereum/go-ethereum/crypto"
 	"pgregory.net/rapid"
 
 	"github.com/teleport-network/teleport/syscontracts"
 	packetcontract "github.com/teleport-network/teleport/syscontracts/xibc_packet"
+	packettypes "github.com/teleport-network/teleport/x/xibc/core/packet/types"
 
 	"verif/harness/kit"
 	"verif/harness/rec"
+	"verif/harness/sim/asmkit"
 )
 
 // Step is one rendered history step.
@@ -37,6 +40,8 @@ type Machine struct {
 	// Ledger (model of the endpoint views, from observed events only).
 	Out  map[string]*big.Int // chain|token|dst  -> expected outTokens
 	Bind map[string]*big.Int // chain|token|ori  -> expected bindings.amount
+
+	emitter map[int]common.Address // per chain: look-alike event emitter deployed by the outsider
 
 	// hooks (optional)
 	OnSend func(o *SendOutcome)
@@ -434,6 +439,56 @@ func (m *Machine) ActLimit(t *rapid.T) {
 	err := ch.App.AggregateKeeper.EnableTimeBasedSupplyLimit(ch.Ctx(), tok, big.NewInt(period), big.NewInt(lim), big.NewInt(maxA), big.NewInt(minA))
 	m.R.Label("supply_limit_enabled")
 	m.Log("limit", fmt.Sprintf("chain %d %s period=%d limit=%d max=%d min=%d", c, w.TokName(c, tok), period, lim, maxA, minA), fmt.Sprintf("err=%v", err != nil))
+}
+
+// ActForgedSendEvent: a user contract (not the packet contract) emits a log that is byte-for-byte shaped like the
+// packet contract's PacketSent event and carries a well-formed packet of this chain with the next sequence of an
+// existing destination. Only the packet contract's own events are sends: the xibc store (commitments, counters)
+// must not change.
+func (m *Machine) ActForgedSendEvent(t *rapid.T) {
+	w := m.W
+	src := rapid.IntRange(0, len(w.Chains)-1).Draw(t, "src")
+	ch := w.Chains[src]
+	dst := w.Chains[(src+1)%len(w.Chains)].ChainID
+	if rapid.IntRange(0, 3).Draw(t, "toTSS") == 0 {
+		dst = TSSName
+	}
+	if m.emitter == nil {
+		m.emitter = map[int]common.Address{}
+	}
+	em, ok := m.emitter[src]
+	if !ok {
+		nonce := ch.App.EvmKeeper.GetNonce(ch.Ctx(), w.Outsider.Addr)
+		r := ch.DeliverEth(w.Outsider, nil, nil, asmkit.InitCode(asmkit.Emitter(1)))
+		if !r.Succeeded() {
+			kit.Failf("emitter deploy failed: %s %s", r.Log, r.VmError)
+		}
+		em = crypto.CreateAddress(w.Outsider.Addr, nonce)
+		m.emitter[src] = em
+	}
+	seq := ch.App.XIBCKeeper.PacketKeeper.GetNextSequenceSend(ch.Ctx(), ch.ChainID, dst) + uint64(rapid.IntRange(0, 1).Draw(t, "seqOffset"))
+	td := packettypes.TransferData{Token: strings.ToLower(w.Tok[src].Hex()), Amount: common.LeftPadBytes(big.NewInt(int64(rapid.IntRange(1, 100000).Draw(t, "amount"))).Bytes(), 32),
+		Receiver: strings.ToLower(w.Outsider.Addr.Hex())}
+	tdBz, err := td.ABIPack()
+	kit.Must(err, "pack transfer data")
+	pk := packettypes.Packet{SrcChain: ch.ChainID, DstChain: dst, Sequence: seq, Sender: strings.ToLower(w.Outsider.Addr.Hex()), TransferData: tdBz, CallData: []byte{}}
+	pkBz, err := pk.ABIPack()
+	kit.Must(err, "pack packet")
+	ev := packetcontract.PacketContract.ABI.Events["PacketSent"]
+	data, err := ev.Inputs.Pack(pkBz)
+	kit.Must(err, "pack event data")
+	before := ch.DumpStores(ch.Ctx(), "xibc")
+	nextBefore := ch.ContractNextSeq(dst)
+	res := ch.DeliverEth(w.Outsider, &em, nil, asmkit.EmitterInput([]common.Hash{ev.ID}, data))
+	after := ch.DumpStores(ch.Ctx(), "xibc")
+	if d := kit.Diff(before, after); len(d) != 0 {
+		m.Failf("a PacketSent look-alike event emitted by a user contract (tx ok=%v) changed the xibc store:\n%s", res.Succeeded(), kit.DiffString(d, 8))
+	}
+	if n := ch.ContractNextSeq(dst); n != nextBefore {
+		m.Failf("a PacketSent look-alike event emitted by a user contract moved the packet contract's counter %d -> %d", nextBefore, n)
+	}
+	m.R.Label(fmt.Sprintf("forged_send_event_tx_ok=%v", res.Succeeded()))
+	m.Log("forgedSendEvent", fmt.Sprintf("%d>%s #%d", src, dst, seq), fmt.Sprintf("tx ok=%v, xibc store unchanged", res.Succeeded()))
 }
 
 // BaseActions returns the standard action table.
